@@ -151,10 +151,16 @@ impl Drop for Server {
 }
 
 fn utf16_len(s: &str) -> u64 {
+    if s.is_ascii() {
+        return s.len() as u64;
+    }
     s.encode_utf16().count() as u64
 }
 
 fn byte_to_utf16(line: &str, byte: usize) -> u64 {
+    if line.is_ascii() {
+        return byte.min(line.len()) as u64;
+    }
     // columns are UTF-16 code units; a byte offset inside a character rounds up to the character's end
     let mut units = 0u64;
     for (i, ch) in line.char_indices() {
@@ -225,6 +231,7 @@ fn check_tokens(text: &str, response: &Value, legend_len: u64) -> Result<usize, 
     }
     let (mut line, mut start) = (0u64, 0u64);
     let mut prev_end: Option<(u64, u64)> = None;
+    let line_units: Vec<u64> = lines.iter().map(|l| utf16_len(l)).collect();
     for (i, t) in data.chunks(5).enumerate() {
         let v: Vec<u64> = t.iter().map(|x| x.as_u64().unwrap_or(u64::MAX)).collect();
         if v.iter().any(|x| *x == u64::MAX) {
@@ -240,7 +247,7 @@ fn check_tokens(text: &str, response: &Value, legend_len: u64) -> Result<usize, 
         if line as usize >= lines.len() {
             return Err(("token-line-out-of-document".into(), ctx()));
         }
-        let ulen = utf16_len(lines[line as usize]);
+        let ulen = line_units[line as usize];
         if start + v[2] > ulen {
             return Err(("token-out-of-line".into(), format!("{}: line has {} UTF-16 units", ctx(), ulen)));
         }
@@ -448,9 +455,14 @@ pub fn property() -> Property {
         enum_family(
             "fixed-witnesses",
             true,
-            |_| 4,
+            |_| 9,
             |_, i| LspCase {
                 steps: match i {
+                    4 => vec![Step::Open(super::c01::nest_text("unary-run", 40000).join("\n")), Step::Tokens],
+                    5 => vec![Step::Open(super::c01::nest_text("not-run", 40000).join("\n")), Step::Tokens],
+                    6 => vec![Step::Open(super::c01::nest_text("if-then", 40000).join("\n")), Step::Tokens],
+                    7 => vec![Step::Open(super::c01::nest_text("def-chain", 95).join("\n")), Step::Tokens],
+                    8 => vec![Step::Open(super::c01::nest_text("subscript", 40000).join("\n")), Step::Change(super::c01::nest_text("abs", 40000).join("\n")), Step::Tokens],
                     0 => vec![Step::Open("10 X = 1\n10".into()), Step::Tokens],
                     1 => vec![Step::Open("10 PRINT \"é\" + 1".into()), Step::Tokens],
                     2 => vec![Step::Open("10 PRINT 1 +\n10 PRINT \"".into()), Step::Change("18446744073709551615 PRINT 1".into()), Step::Tokens],
